@@ -8,6 +8,7 @@ mod eng_vec;
 mod eng_adp;
 mod eng_obs;
 mod eng_conc;
+mod eng_own;
 
 use common::*;
 use std::path::PathBuf;
@@ -36,6 +37,7 @@ fn main() {
         "adp" => eng_adp::run(&a, &mut sink),
         "obs" => eng_obs::run(&a, &mut sink, false),
         "conc" => eng_conc::run(&a, &mut sink),
+        "own" => eng_own::run(&a, &mut sink),
         "obsasync" => eng_obs::run(&a, &mut sink, true),
         e => {
             eprintln!("unknown engine {e}");
